@@ -39,3 +39,22 @@ PROPS['C01'] = dict(
         [dict(target='handoff', family='handoff', mode='dfs', bound=3, workers=16, timeout=3000),
          dict(target='handoff', family='handoff', mode='random', cases=400000, workers=16, timeout=3000)]),
 )
+
+PROPS['C19'] = dict(
+    level='exploration',
+    assumptions=['std::atomic<T> of libstdc++ (g++ 12, x86-64) is the reference model; one thread only',
+                 'harness built at -O0 with ASan + UBSan (signed-integer-overflow excluded: std::atomic arithmetic wraps)'],
+    technique='rapidcheck stateful operation sequences, differential against std::atomic<T> (bitwise), both back ends',
+    level_text='Generated operation sequences (<=48 ops, 13 types incl. pointer, float/double and atomic_flag, '
+               'boundary-biased operands, all legal memory orders, hook-chosen / always / never spurious weak-CAS '
+               'failures) are executed on yaclib_std::atomic<T> of the FIBER build and of the THREAD build and on '
+               'std::atomic<T>; every return value, expected and stored value is compared bitwise after each step. '
+               'Held on everything generated.',
+    level_note='Differential oracle: trusts libstdc++ std::atomic on x86-64; single thread; does not cover wait/notify '
+               '(compiled out: YACLIB_FUTEX=0) nor operator=(T) of the THREAD wrapper (does not compile).',
+    jobs=q(
+        [dict(target='atomic-fib', family='atomic_fiber', mode='random', cases=60000, workers=6, timeout=600),
+         dict(target='atomic-thr', family='atomic_thread', mode='random', cases=60000, workers=6, timeout=600)],
+        [dict(target='atomic-fib', family='atomic_fiber', mode='random', cases=600000, workers=8, timeout=3000),
+         dict(target='atomic-thr', family='atomic_thread', mode='random', cases=600000, workers=8, timeout=3000)]),
+)
